@@ -66,6 +66,23 @@ UngroupPortsItems(items) ==
   ELSE LET h == Head(items) IN
        (IF IsBlock(h) THEN <<[h EXCEPT !.items = SplitLeaves(h.items)]>> ELSE SplitLeaf(h)) \o UngroupPortsItems(Tail(items))
 
+(* any entry needs a split that changes its meaning (multi-port neq)?       *)
+UnsafeSplitIn(items) == \E k \in 1..Len(Flatten(items)) : NeedsSplit(Flatten(items)[k]) /\ ~SplitKeepsMeaning(Flatten(items)[k].f)
+
+---------------------------------------------------------------------------
+(* acl.type = "standard": an extended entry keeps action and source only   *)
+(* (protocol ip, no ports / flags / log, destination any); refused when a  *)
+(* source names an address group (a standard entry cannot) - and a refused *)
+(* change leaves the whole list as it was.                                  *)
+ToStandardLeaf(x) ==
+  IF IsAce(x) THEN [x EXCEPT !.f = [x.f EXCEPT !.proto = 0, !.sp = NoPort, !.dp = NoPort, !.flags = <<>>, !.logs = <<>>,
+                                           !.dst = [k |-> "wild", w |-> AnyW, name |-> "", mem |-> <<>>]]] ELSE x
+MapLeaves(items, F(_)) ==
+  [k \in 1..Len(items) |-> IF IsBlock(items[k]) THEN [items[k] EXCEPT !.items = [j \in 1..Len(items[k].items) |-> F(items[k].items[j])]]
+                           ELSE F(items[k])]
+ToStandardItems(items) == MapLeaves(items, ToStandardLeaf)
+StandardRefused(items) == \E k \in 1..Len(Flatten(items)) : IsAce(Flatten(items)[k]) /\ Flatten(items)[k].f.src.k = "group"
+
 ---------------------------------------------------------------------------
 (* C15: grouping by remark prefix                                          *)
 IsHeading(x, pre) == IsRemark(x) /\ \E k \in 1..Len(x.heads) : x.heads[k] = pre
